@@ -47,21 +47,22 @@ type op struct {
 
 // G is a controlled goroutine.
 type G struct {
-	id        string
-	wake      chan struct{}
-	pend      op
-	hash      uint64
-	fruitless map[uint64]bool
-	cycled    bool // completed a full pass of fruitless operations since anybody last progressed
+	id            string
+	wake          chan struct{}
+	pend          op
+	hash          uint64
+	fruitless     map[uint64]bool
+	sleepKeys     map[uint64]bool // keys produced by Sleep (never counted as polls)
+	cycled        bool            // completed a full pass of fruitless operations since anybody last progressed
 	lastFruitless bool
-	done      bool
-	spawnN    int
-	newN      int
-	abort     bool
-	lastUnlock *MutexState
-	lastVer    map[*MutexState]uint64
-	spinLock   bool
-	realID     int64
+	done          bool
+	spawnN        int
+	newN          int
+	abort         bool
+	lastUnlock    *MutexState
+	lastVer       map[*MutexState]uint64
+	spinLock      bool
+	realID        int64
 }
 
 type chanInfo struct {
@@ -82,29 +83,29 @@ type Point struct {
 
 // Exec is one controlled execution.
 type Exec struct {
-	order             []*G
-	cur               *G
-	chans             map[uintptr]*chanInfo
-	prefix            []int
-	Choices           []int
-	Points            []Point
-	Steps             int
-	Status            string // done deadlock spin crash steplimit replay-divergence unsupported lost-control
-	Detail            string
-	Leaked            bool
-	Out               []string
-	Trace             []string
-	mainDone          chan struct{}
-	wg                sync.WaitGroup
-	cacheHit          bool
-	ex                *Explorer
-	CapMap            func(n int, site string) int
-	Clock             int64
-	ClockChoice       bool
-	keepTrace         bool
-	StepLimit         int
-	mu                sync.Mutex
-	finished          bool
+	order       []*G
+	cur         *G
+	chans       map[uintptr]*chanInfo
+	prefix      []int
+	Choices     []int
+	Points      []Point
+	Steps       int
+	Status      string // done deadlock spin crash steplimit replay-divergence unsupported lost-control
+	Detail      string
+	Leaked      bool
+	Out         []string
+	Trace       []string
+	mainDone    chan struct{}
+	wg          sync.WaitGroup
+	cacheHit    bool
+	ex          *Explorer
+	CapMap      func(n int, site string) int
+	Clock       int64
+	ClockChoice bool
+	keepTrace   bool
+	StepLimit   int
+	mu          sync.Mutex
+	finished    bool
 }
 
 // X is the current execution (nil = scheduler off).
@@ -379,7 +380,19 @@ func Sleep(d time.Duration, site string) {
 	x.Clock += int64(d)
 	// the same Sleep statement may follow several different polls of one pass: it only closes a
 	// cycle when nothing new was polled since its previous execution
-	g.markFruitless(h64("sleep", site, len(g.fruitless)))
+	// (sleep keys themselves are not counted, or a loop that only sleeps would never repeat a key)
+	polled := 0
+	for k := range g.fruitless {
+		if !g.sleepKeys[k] {
+			polled++
+		}
+	}
+	key := h64("sleep", site, polled)
+	if g.sleepKeys == nil {
+		g.sleepKeys = map[uint64]bool{}
+	}
+	g.sleepKeys[key] = true
+	g.markFruitless(key)
 }
 
 // Now replaces time.Now in instrumented files.
@@ -823,6 +836,10 @@ type Explorer struct {
 	Statuses map[string]int
 	Capped   bool
 	curCost  int
+	// BoundDone is the largest preemption bound whose space was explored completely (-1: none;
+	// for an unbounded exploration it is -1 unless the whole space was covered, then 1<<30)
+	BoundDone int
+	states    int
 }
 
 func (e *Explorer) remaining(x *Exec) int {
@@ -833,14 +850,38 @@ func (e *Explorer) remaining(x *Exec) int {
 }
 
 // States is the number of distinct cached states.
-func (e *Explorer) States() int { return len(e.seen) }
+func (e *Explorer) States() int { return e.states + len(e.seen) }
 
 // Explore enumerates executions of body; check is called on every finished execution.
 func (e *Explorer) Explore(body func(), check func(x *Exec)) {
 	e.seen = map[uint64]int{}
 	e.Outcomes = map[string]int{}
 	e.Statuses = map[string]int{}
-	e.explore(nil, 0, body, check)
+	e.BoundDone = -1
+	if e.Bound <= 0 {
+		e.explore(nil, 0, body, check)
+		if !e.Capped {
+			e.BoundDone = e.Bound
+			if e.Bound < 0 {
+				e.BoundDone = 1 << 30
+			}
+		}
+		return
+	}
+	// iterative context bounding: everything with 0 preemptions, then 1, ... so that the first
+	// counterexample has the fewest preemptions and a capped run still completes the lower bounds
+	final := e.Bound
+	for b := 0; b <= final; b++ {
+		e.Bound = b
+		e.states += len(e.seen)
+		e.seen = map[uint64]int{}
+		e.explore(nil, 0, body, check)
+		if e.Capped {
+			break
+		}
+		e.BoundDone = b
+	}
+	e.Bound = final
 }
 
 func (e *Explorer) explore(prefix []int, used int, body func(), check func(x *Exec)) {
